@@ -6,7 +6,7 @@
    k + horizon < n.  Independent of the code; tied to it by C01 (discrete) and
    by the correspondence checks of C04/C19 (dense). *)
 From Coq Require Import List Arith ZArith Lia.
-From RV Require Import Val Syntax Rho Dense DenseSem DenseGrid ExtZ.
+From RV Require Import Val Syntax Rho Offline Dense DenseSem DenseGrid DenseVisitor DenseGridVisitor ExtZ.
 Import ListNotations.
 
 Theorem C19_grid :
@@ -35,6 +35,25 @@ Proof.
   rewrite <- E at 2. apply C19_grid; try assumption; [lia|rewrite E; exact Hk].
 Qed.
 Print Assumptions C19_sampling_instants.
+
+(* the same statement about the two implementation-layer models: the list built by the dense-time visitor (bounds times P),
+   read at k*P, is the k-th entry of the list built by the discrete-time visitor *)
+Theorem C19_visitors :
+  forall (VS : Val) (AR : Arith VS), (forall l r, neg (a2 AR Sub l r) = a2 AR Sub r l) ->
+  forall (Pn : nat) (w : trace) (n : nat) (p : formula),
+    (0 < Pn)%nat -> (1 <= n)%nat -> (forall x, (x < length w)%nat -> length (nth x w []) = n) ->
+    frag p = true -> wf_bounds p = true -> (nvars p <= length w)%nat ->
+    exists s, deval AR (scaleF Pn p) (map (stepsig (Z.of_nat Pn)) w) = Some s /\
+      forall k, (k + hor p < n)%nat -> den s (Z.of_nat k * Z.of_nat Pn) = nth k (eval_off AR (fun _ _ => PStd) p w n) bot.
+Proof. intros VS AR SN Pn w n p HP. exact (grid_visitors AR SN Pn HP w n p). Qed.
+Print Assumptions C19_visitors.
+
+Example C19_visitors_nonvacuous :
+  let p : @formula ExtZVal := And (OnceT 1 2 (Pred CGeq (Var 0) (Const (Fin 1)))) (AlwT 0 1 (Pred CLeq (Var 0) (Const (Fin 3)))) in
+  let w := [[Fin 3; Fin 0; Fin (-1); Fin 4; Fin 2]] in
+  exists s, deval ExtZArith (scaleF 4 p) (map (stepsig 4) w) = Some s /\
+    map (fun k => den s (Z.of_nat k * 4)) [0;1;2;3]%nat = firstn 4 (eval_off ExtZArith (fun _ _ => PStd) p w 5).
+Proof. cbv zeta. eexists. split; [vm_compute; reflexivity|vm_compute; reflexivity]. Qed.
 
 Example C19_nonvacuous :
   let p : @formula ExtZVal := And (OnceT 1 2 (Pred CGeq (Var 0) (Const (Fin 1)))) (AlwT 0 1 (Pred CLeq (Var 0) (Const (Fin 3)))) in
